@@ -544,6 +544,20 @@ const (
 
 // internal errors for internal purposes
 
+// errorServiceReply is handed to the waiting key exchange in place of a reply which could not be read: a body
+// which does not decode, a transport error code (e.g. -404), a connection closed by the server
+type errorServiceReply struct {
+	err error
+}
+
+func (e *errorServiceReply) Error() string {
+	return e.err.Error()
+}
+
+func (*errorServiceReply) CRC() uint32 {
+	panic("makes no sense")
+}
+
 type errorSessionConfigsChanged null
 
 func (*errorSessionConfigsChanged) Error() string {
